@@ -1,5 +1,5 @@
 use std::borrow::Cow;
-use std::collections::HashMap;
+use std::collections::{HashMap, HashSet};
 use std::fs::File;
 use std::io;
 use std::path::Path;
@@ -192,8 +192,32 @@ where
     N: AsRef<str> + Ord + std::fmt::Display,
     V: Into<View<'a>>,
 {
-    let bytes = serialize(tensor_bytes_iter(tensors), None).map_err(to_io_error)?;
+    let tensors: Vec<_> = tensor_bytes_iter(tensors).collect();
+    check_names(tensors.iter().map(|(name, _)| name.as_ref()))?;
+    let bytes = serialize(tensors, None).map_err(to_io_error)?;
     writer.write_all(&bytes)
+}
+
+/// Check that tensor names can be stored as keys of the safetensors header.
+///
+/// Names must be unique, and `__metadata__` is reserved by the format.
+fn check_names<'a>(names: impl Iterator<Item = &'a str>) -> io::Result<()> {
+    let mut seen = HashSet::new();
+    for name in names {
+        if name == "__metadata__" {
+            return Err(io::Error::new(
+                io::ErrorKind::InvalidInput,
+                "`__metadata__` is reserved and cannot be used as a tensor name",
+            ));
+        }
+        if !seen.insert(name) {
+            return Err(io::Error::new(
+                io::ErrorKind::InvalidInput,
+                format!("duplicate tensor name `{name}`"),
+            ));
+        }
+    }
+    Ok(())
 }
 
 /// Serialize named tensors to a safetensors file - this will create the file.
@@ -374,6 +398,18 @@ mod tests {
         let err = read(&bytes[..]).unwrap_err();
 
         assert_eq!(err.kind(), io::ErrorKind::InvalidData);
+    }
+
+    #[test]
+    fn test_write_safetensors_rejects_duplicate_and_reserved_names() {
+        let a: Tensor<i32> = [1, 2, 3].into();
+
+        let mut buffer = Vec::new();
+        let err = write(&mut buffer, [("a", a.view()), ("a", a.view())]).unwrap_err();
+        assert_eq!(err.kind(), io::ErrorKind::InvalidInput);
+
+        let err = write(&mut buffer, [("__metadata__", a.view())]).unwrap_err();
+        assert_eq!(err.kind(), io::ErrorKind::InvalidInput);
     }
 
     #[test]
